@@ -274,7 +274,16 @@ impl GrandState {
                     }
                 }
 
-                state.current_state = new_state;
+                // A trapped signal that has been caught but not yet handled is
+                // still to be handled if it remains trapped, now with the new
+                // action.
+                let pending = state.current_state.pending
+                    && matches!(state.current_state.action, Action::Command(_))
+                    && matches!(new_state.action, Action::Command(_));
+                state.current_state = TrapState {
+                    pending,
+                    ..new_state
+                };
             }
         }
 
@@ -1427,5 +1436,35 @@ mod tests {
 
         let trap = state.handle_if_caught();
         assert_eq!(trap, None);
+    }
+
+    #[test]
+    fn setting_action_keeps_signal_marked_as_caught() {
+        let system = DummySystem::default();
+        let mut map = BTreeMap::new();
+        let cond = SIGUSR1.into();
+        let origin = Location::dummy("foo");
+        let action = Action::Command("echo 1".into());
+        GrandState::set_action(&system, map.entry(cond), action, origin.clone(), false)
+            .now_or_never()
+            .unwrap()
+            .unwrap();
+        map.get_mut(&cond).unwrap().mark_as_caught();
+
+        let action = Action::Command("echo 2".into());
+        let entry = map.entry(cond);
+        GrandState::set_action(&system, entry, action.clone(), origin.clone(), false)
+            .now_or_never()
+            .unwrap()
+            .unwrap();
+
+        let state = &mut map.get_mut(&cond).unwrap();
+        let expected_trap = TrapState {
+            action,
+            origin: Origin::User(origin),
+            pending: false,
+        };
+        assert_eq!(state.handle_if_caught(), Some(&expected_trap));
+        assert_eq!(state.handle_if_caught(), None);
     }
 }
